@@ -19,6 +19,13 @@ pub enum TraceItem {
     /// `(token, class offset of the tag category, class, feature description, quantised weight)`
     /// of a tag feature (zero weights included)
     TagFeature(String, usize, usize, String, i32),
+    /// bit patterns of the largest absolute coefficient and of the quantisation multiplier derived
+    /// from it (boundary model)
+    Quant(u64, u64),
+    /// bit pattern of the unquantised bias of the boundary model
+    RawBias(u64),
+    /// `(feature description, bit pattern of the unquantised coefficient)` of a boundary feature
+    RawFeature(String, u64),
 }
 
 thread_local! {
